@@ -58,6 +58,49 @@ fn olpc_str(s: &str, out: &mut Vec<u8>) {
     out.push(b'"');
 }
 
+/// the link of a scenario tree built through the public constructors (builder, `.into()` paths) instead of the parser
+fn link_via_api(v: &Value) -> Option<in_toto::models::LinkMetadata> {
+    use in_toto::crypto::{HashAlgorithm, HashValue};
+    use in_toto::models::{byproducts::ByProducts, LinkMetadataBuilder, TargetDescription, VirtualTargetPath};
+    use std::collections::BTreeMap;
+    if v["_type"] != "link" { return None; }
+    let arts = |x: &Value| -> Option<BTreeMap<VirtualTargetPath, TargetDescription>> {
+        let mut m = BTreeMap::new();
+        for (p, d) in x.as_object()? {
+            let mut td = TargetDescription::new();
+            for (alg, hex) in d.as_object()? {
+                let a = match alg.as_str() { "sha256" => HashAlgorithm::Sha256, "sha512" => HashAlgorithm::Sha512, _ => return None };
+                td.insert(a, HashValue::new(data_encoding::HEXLOWER.decode(hex.as_str()?.as_bytes()).ok()?));
+            }
+            m.insert(VirtualTargetPath::from(p.as_str()), td);
+        }
+        Some(m)
+    };
+    let mut bp = ByProducts::new();
+    for (k, x) in v["byproducts"].as_object()? {
+        match k.as_str() {
+            "return-value" => bp = bp.set_return_value(x.as_i64()? as i32),
+            "stdout" => bp = bp.set_stdout(x.as_str()?.to_string()),
+            "stderr" => bp = bp.set_stderr(x.as_str()?.to_string()),
+            _ => bp = bp.set_other_field(k.clone(), x.as_str()?.to_string()),
+        }
+    }
+    let env: Option<BTreeMap<String, String>> = v["environment"].as_object().map(|o| o.iter().map(|(k, x)| (k.clone(), x.as_str().unwrap_or("").to_string())).collect());
+    let cmd: Vec<String> = v["command"].as_array()?.iter().map(|x| x.as_str().unwrap_or("").to_string()).collect();
+    LinkMetadataBuilder::new().name(v["name"].as_str()?.to_string()).materials(arts(&v["materials"])?).products(arts(&v["products"])?)
+        .env(env).byproducts(bp).command(cmd.into()).build().ok()
+}
+
+/// sign through the library, write JSON (compact and pretty), read back, verify with threshold 1
+fn wire_trip_verifies(meta: MetadataWrapper, key: &PrivateKey) -> bool {
+    let mb = match Metablock::new(meta, &[key]) { Ok(m) => m, Err(_) => return false };
+    let texts = [serde_json::to_string(&mb), serde_json::to_string_pretty(&mb)];
+    texts.iter().all(|t| match t {
+        Ok(t) => serde_json::from_str::<Metablock>(t).map(|back| back.verify(1, [key.public()]).is_ok()).unwrap_or(false),
+        Err(_) => false,
+    })
+}
+
 pub fn run(sc: &Value) -> Value {
     let repo = std::env::var("VERIF_REPO").unwrap_or_else(|_| "/repo".to_string());
     let der = std::fs::read(format!("{}/tests/ed25519/ed25519-1.pk8.der", repo)).expect("key");
@@ -68,6 +111,9 @@ pub fn run(sc: &Value) -> Value {
     // the parsed metadata must be the scenario's metadata (nothing dropped or altered by parsing)
     let reser = serde_json::to_value(&meta).unwrap();
     let parse_altered = reser != v;
+    // wire-trip scenarios: the value built through the constructors when that is possible (link), else the parsed value
+    let meta = if sc["wire_trip"] == true { link_via_api(&v).map(MetadataWrapper::Link).unwrap_or(meta) } else { meta };
+    let wire_ok: Option<bool> = if sc["wire_trip"] == true { Some(wire_trip_verifies(meta.clone(), &key)) } else { None };
     let mb = Metablock::new(meta, &[&key]).expect("sign");
     let lib_sig = serde_json::to_value(&mb).unwrap()["signatures"][0]["sig"].as_str().unwrap().to_string();
     let candidate: Vec<u8> = if sc["compare"] == "olpc" { let mut o = Vec::new(); olpc(&v, &mut o); o }
@@ -79,5 +125,5 @@ pub fn run(sc: &Value) -> Value {
     for b in &candidate { if *b == b'\n' { undone.extend(b"\\n"); } else { undone.push(*b); } }
     let decoded_equals_tree = serde_json::from_slice::<Value>(&undone).map(|d| d == v).unwrap_or(false);
     json!({"outcome": if ref_sig == lib_sig { "match" } else { "mismatch" }, "candidate": String::from_utf8_lossy(&candidate),
-           "parse_altered_metadata": parse_altered, "decoded_equals_tree": decoded_equals_tree})
+           "parse_altered_metadata": parse_altered, "decoded_equals_tree": decoded_equals_tree, "wire_trip_verifies": wire_ok})
 }
